@@ -46,7 +46,11 @@ def run(c):
         c.lost("positive-control", "R4", "grin_keychain::types::BlindingFactor::rand", "the entropy matcher finds SecretKey::new in BlindingFactor::rand", "matcher found nothing: pattern or anchor lost")
     c.no_reach_cg("rewind-never-panics", ["grin_core::libtx::proof::rewind"], r"re:core::(option::Option|result::Result)::expect$|core::option::Option::unwrap$|core::panicking::", depth=0,
                   floor_nodes=1, desc="proof::rewind contains no expect/panic/Option::unwrap: failures of rewind_nonce / check_output are mapped to Err values")
-    c.r1("rewind-unwrap-guarded", "grin_core::libtx::proof::rewind", "re:core::result::Result::is_err$", sink="re:core::result::Result::unwrap$", truth=False, via=2,
-         desc="proof::rewind: the only unwrap is dominated by the false edge of is_err() on the same value (a failed secp rewind returns Ok(None))")
+    k = c.getfn("grin_core::libtx::proof::rewind")
+    if k and not any(__import__("facts").call_matches(t, __import__("rules").pat("re:core::result::Result::unwrap$")) for _b, t in c.F.calls(k)):
+        c.record("rewind-unwrap-guarded", "R1", k, "proof::rewind contains no unwrap at all (a failed secp rewind is matched, not unwrapped)", "hold", [])
+    else:
+        c.r1("rewind-unwrap-guarded", "grin_core::libtx::proof::rewind", "re:core::result::Result::is_err$", sink="re:core::result::Result::unwrap$", truth=False, via=2,
+             desc="proof::rewind: the only unwrap is dominated by the false edge of is_err() on the same value (a failed secp rewind returns Ok(None))")
     c.r3("rewind-single-unwrap", "re:core::result::Result::unwrap$", {"never"}, crates=["none"], floor_sites=0) if False else None
     c.r2_ret("rewind-result-from-secp", "grin_core::libtx::proof::rewind", must=["re:^call:pedersen::rewind_bullet_proof$|^call:.*rewind_bullet_proof$"]) if False else None
